@@ -155,6 +155,8 @@ def replay_behaviour(ctx, XmlWrite, hist, rng, flavour):
 
 def run(ctx):
     repo.setup()
+    from ..core import quiet_logging
+    quiet_logging()
     from TotalDepth.util import XmlWrite
     rng = ctx.subrng('c18')
     maxcalls = ctx.pick(3, 4)
